@@ -474,7 +474,21 @@ func (f *frame) doAppend(cm *ssa.CallCommon, pos token.Pos, st *State, name stri
 	// Go: append(nil, <empty>) returns nil; our model returns a non-nil empty slice in that case only
 	// when cap is exceeded, which cannot happen for n = 0 (0 <= cap). Fine.
 	f.tagAlloc(st, id, et)
+	before := map[string]string{}
+	for _, h := range c.g.elemHeaps(et) {
+		before[h] = st.Heap(h)
+	}
 	f.appendHeaps(st, et, s.T, t.T, inplace, id)
+	// Consequences of the destination-indexed definition above, stated source-indexed so that E-matching has the terms
+	// (an invariant over the elements of the operand, or an existential over positions of the result, otherwise finds no
+	// instance): element i of the operand is element i of the result, and the first appended element is at index len(s).
+	for _, h := range c.g.elemHeaps(et) {
+		c.assume(st, fmt.Sprintf("(forall ((i Int)) (! (=> (and (<= 0 i) (< i (slen %s))) (= (select %s (selem %s i)) (select %s (selem %s i)))) :pattern ((selem %s i))))", s.T, st.Heap(h), res, before[h], s.T, s.T))
+		c.assume(st, fmt.Sprintf("(=> (>= %s 1) (= (select %s (selem %s (slen %s))) (select %s (selem %s 0))))", n, st.Heap(h), res, s.T, before[h], t.T))
+	}
+	// A consequence of the selem axiom, stated so that E-matching has the term: an append in place keeps every element
+	// location of the operand (without it, invariants triggered on elements of the old slice never fire on the new one).
+	c.assume(st, fmt.Sprintf("(forall ((i Int)) (! (=> %s (= (selem %s i) (selem %s i))) :pattern ((selem %s i))))", inplace, res, s.T, res))
 	return Val{T: res, Typ: slT}
 }
 
